@@ -271,6 +271,8 @@ class Gen:
             if alert and blocks[0]["t"] != "para":
                 blocks.insert(0, self.para(2))
             d = {"t": "quote", "blocks": blocks}
+            if not alert and r.random() < 0.12:
+                d["trailing_blank"] = True
             if alert:
                 d["alert"] = r.choice(ALERTS)
                 d["alert_case"] = r.choice(["upper", "upper", "lower", "title"])
@@ -585,8 +587,8 @@ class Ser:
                 return head + self.prefix([("", "x")] + inner, "", "> ", ">")[1:] if False else \
                     head + [(("> " + ln) if ln else ">", k) for ln, k in inner]
             res = self.prefix(inner, "> ", "> ", ">")
-            if self.wild and L.random() < 0.15:
-                res.append((">", "x"))  # a trailing empty quoted line is still the same quote
+            if b.get("trailing_blank"):
+                res.append((">", "x"))  # a trailing empty quoted line (part of the tree, not a layout choice)
             return res
         if t == "fndef":
             self.cdepth += 1
